@@ -356,6 +356,30 @@ impl ParsedPacket {
             }
             Section::Additional => {
                 self.offset_additional = self.offset_additional.or(Some(insertion_offset));
+                if self.offset_edns.is_none()
+                    && rr_len >= 1 + DNS_OPT_RR_HEADER_SIZE
+                    && rr.packet[0] == 0
+                    && BigEndian::read_u16(&rr.packet[1 + DNS_RR_TYPE_OFFSET..]) == Type::OPT.into()
+                {
+                    // An OPT record brings the edns pseudo-section with it
+                    let opt = &rr.packet[1..];
+                    self.max_payload =
+                        BigEndian::read_u16(&opt[DNS_OPT_RR_MAX_PAYLOAD_OFFSET..]) as usize;
+                    self.ext_rcode = Some(opt[DNS_OPT_RR_EXT_RCODE_OFFSET]);
+                    self.edns_version = Some(opt[DNS_OPT_RR_EDNS_VERSION_OFFSET]);
+                    self.ext_flags =
+                        Some(BigEndian::read_u16(&opt[DNS_OPT_RR_EDNS_EXT_FLAGS_OFFSET..]));
+                    self.offset_edns = Some(insertion_offset + 1 + DNS_OPT_RR_HEADER_SIZE);
+                    let mut edns_count = 0;
+                    let mut offset = DNS_OPT_RR_HEADER_SIZE;
+                    while offset + DNS_EDNS_RR_HEADER_SIZE <= opt.len() {
+                        offset += DNS_EDNS_RR_HEADER_SIZE
+                            + BigEndian::read_u16(&opt[offset + DNS_EDNS_RR_RDLEN_OFFSET..])
+                                as usize;
+                        edns_count += 1;
+                    }
+                    self.edns_count = edns_count;
+                }
             }
             _ => panic!("insertion_offset() is not suitable to adding EDNS pseudorecords"),
         }
